@@ -110,6 +110,7 @@ Definition adts_decode (st : asc) (data : bytes) : asc * res (bytes * bytes) :=
       | Panic s => (st, Panic s)
       | Ok obj =>
       let a := mk_asc obj (hd_sfi h) (hd_ch h) in
+      if hd_flen h <? hd_nbheader h then (a, Err 9) else            (* frameLength < nbHeader (cd86513) *)
       let nb_raw := u16 (hd_flen h + 65536 - hd_nbheader h) in     (* int(frameLength - nbHeader), uint16 *)
       if len_ltN (hd_rest h) nb_raw then (a, Err 4) else
       match splitN (hd_rest h) nb_raw with                        (* p[:nbRaw], p[nbRaw:] *)
@@ -169,6 +170,32 @@ Definition spec_adts_frame (h : adts_hdr) (raw : bytes) : bytes :=
      ++ (if h_pa h =? 0 then [ (h_crc h, 16) ] else []))   (* adts_error_check: crc_check *)
   ++ raw.
 
+(* adts_frame() with number_of_raw_data_blocks_in_frame = n > 0 (n+1 raw data blocks):
+     adts_fixed_header(); adts_variable_header();
+     adts_header_error_check():  if protection_absent == 0: raw_data_block_position[i] (16 bits each,
+                                 i = 1..n, byte offset of block i from the start of block 0), crc_check (16)
+     for i = 0..n: raw_data_block(); adts_raw_data_block_error_check(): if protection_absent == 0: crc_check (16)
+   A block is given with its crc_check value (ignored when protection is absent). *)
+Fixpoint spec_block_offsets (off : N) (extra : N) (blocks : list (bytes * N)) : list N :=
+  match blocks with
+  | [] => []
+  | b :: t => off :: spec_block_offsets (off + lenN (fst b) + extra) extra t
+  end.
+
+Definition spec_multi_body (h : adts_hdr) (blocks : list (bytes * N)) : bytes :=
+  if h_pa h =? 0 then
+    pack_fields (map (fun p => (p, 16)) (tl (spec_block_offsets 0 2 blocks) ++ [h_crc h]))
+    ++ flat_map (fun b => fst b ++ pack_fields [ (snd b, 16) ]) blocks
+  else flat_map fst blocks.
+
+Definition spec_adts_frame_multi (h : adts_hdr) (blocks : list (bytes * N)) : bytes :=
+  let body := spec_multi_body h blocks in
+  pack_fields
+    [ (4095, 12); (h_id h, 1); (h_layer h, 2); (h_pa h, 1); (h_profile h, 2); (h_sfi h, 4); (h_priv h, 1);
+      (h_ch h, 3); (h_orig h, 1); (h_home h, 1); (h_cbit h, 1); (h_cstart h, 1);
+      (7 + lenN body, 13); (h_fullness h, 11); (countN blocks - 1, 2) ]
+  ++ body.
+
 (* Table 35 of ISO/IEC 13818-7: sampling frequency by index *)
 Definition spec_iso_hz : list N :=
   [96000; 88200; 64000; 48000; 44100; 32000; 24000; 22050; 16000; 12000; 11025; 8000; 7350].
@@ -198,6 +225,18 @@ Definition obs_asc2 (hi lo : N) : sx :=
 
 Fixpoint sweep_lo (hi : N) (n : nat) (lo : N) : list sx :=
   match n with O => [] | S n' => obs_asc2 hi lo :: sweep_lo hi n' (lo + 1) end.
+
+(* the text of a generated String helper as bytes *)
+Definition str_of (r : res String.string) : sx :=
+  match r with Ok s => SB (string_bytes s) | _ => s_panic end.
+
+(* blocks of case 10: the i-th block gets the crc_check value 0xC300 + i *)
+Fixpoint p_blocks (l : list sx) (i : N) : option (list (bytes * N)) :=
+  match l with
+  | [] => Some []
+  | SB b :: t => match p_blocks t (i + 1) with Some r => Some ((b, 49920 + i) :: r) | None => None end
+  | _ :: _ => None
+  end.
 
 Definition run_c11 (c : sx) : sx :=
   match c with
@@ -233,7 +272,9 @@ Definition run_c11 (c : sx) : sx :=
       end
   | SL [SZ 7; SZ v] =>
       match to_hz (Z.to_N v), to_profile (Z.to_N v), to_object (Z.to_N v) with
-      | Ok hz, Ok p, Ok o => s_ok [sN hz; sN p; sN o]
+      | Ok hz, Ok p, Ok o =>
+          s_ok [sN hz; sN p; sN o; str_of (aac_ObjectType_String v); str_of (aac_Profile_String v);
+                str_of (aac_SampleRateIndex_String v); str_of (aac_Channels_String v)]
       | _, _, _ => s_panic
       end
   | SL [SZ 8; SB cfg; SB raw] =>
@@ -247,6 +288,15 @@ Definition run_c11 (c : sx) : sx :=
           | Err e => SL [set; s_err e]
           | Panic _ => s_panic
           end
+      end
+  | SL [SZ 10; SZ id; SZ pa; SZ profile; SZ sfi; SZ ch; SL blocks; SB tail] =>
+      match p_blocks blocks 0 with
+      | Some bl =>
+          let h := mk_hdr (Z.to_N id) 0 (Z.to_N pa) (Z.to_N profile) (Z.to_N sfi) 0 (Z.to_N ch) 0 0 0 0 2047
+                          (countN bl - 1) 42405 in
+          let frame := spec_adts_frame_multi h bl in
+          s_ok [SB frame; obs_dec (adts_decode asc0 (frame ++ tail))]
+      | None => bad_case
       end
   | SL [SZ 9; SZ id; SZ layer; SZ pa; SZ profile; SZ sfi; SZ priv; SZ ch; SZ orig; SZ home;
         SZ cbit; SZ cstart; SZ fullness; SZ nblocks; SZ crc; SB raw; SB tail] =>
